@@ -139,3 +139,88 @@ def ok_err_blocks(fn, call):
         ok |= ok_t
         err |= err_t
     return ok, err
+
+
+# ---------------------------------------------------------------------------------------------
+# disposition of a Result-valued call
+
+PASS_THROUGH = (
+    "core::result::Result::map_err", "core::result::Result::map", "core::result::Result::and_then",
+    "core::result::Result::or_else", "core::result::Result::map_or_else",
+    "<core::result::Result<T, E> as core::ops::try_trait::Try>::branch",
+)
+SWALLOW = (
+    "core::result::Result::ok", "core::result::Result::unwrap_or", "core::result::Result::unwrap_or_default",
+    "core::result::Result::unwrap_or_else", "core::result::Result::is_ok", "core::result::Result::is_err",
+    "core::result::Result::err", "core::result::Result::map_or", "core::result::Result::or",
+)
+PANIC = ("core::result::Result::unwrap", "core::result::Result::expect")
+
+
+def err_arm_returns_err(fn, err_target):
+    """from the Err arm of a match on a Result: every path to a return assigns an Err to the return place"""
+    reach = cfg.reach_from(fn, err_target)
+    rets = [b for b in fn.returns() if b in reach]
+    if not rets:
+        # diverges (panic) — not a propagation
+        return False, "diverges"
+    marks = set()
+    bad = []
+    for b in reach:
+        for s in fn.stmts(b):
+            if s["k"] == "assign" and s["place"] == {"l": 0}:
+                rv = s["rv"]
+                if rv["k"] == "agg" and rv.get("adt") == "core::result::Result" and rv.get("variant") == "Err":
+                    marks.add(b)
+                elif rv["k"] == "agg" and rv.get("adt") == "core::result::Result":
+                    bad.append(b)
+                elif rv["k"] == "use":
+                    marks.add(b)      # a whole Result moved into the return place
+        t = fn.term(b)
+        if t["k"] == "call" and t.get("dest") == {"l": 0}:
+            marks.add(b)              # from_residual / a propagating callee
+    ok = cfg.paths_must_pass(fn, err_target, marks, rets)
+    return ok, ("ok" if ok else "a path from the Err arm returns without an Err value")
+
+
+def disposition(fn, call, _seen=None, _depth=0):
+    """how the Result produced by `call` is consumed: list of (kind, detail, bb)
+       kinds: 'returned' | 'propagated' | 'swallowed' | 'panics' | 'dropped' | 'matched-not-propagated' | 'escapes'"""
+    out = []
+    _seen = _seen if _seen is not None else set()
+    if call.dest is None:
+        return [("dropped", "no destination", call.bb)]
+    if call.dest == {"l": 0}:
+        return [("returned", "", call.bb)]
+    if "p" in call.dest:
+        return [("escapes", "stored into a place", call.bb)]
+    if (call.bb) in _seen or _depth > 6:
+        return []
+    _seen.add(call.bb)
+    sp = result_split(fn, call.dest["l"])
+    if sp.returned:
+        out.append(("returned", "", call.bb))
+    for (sb, zero_t, one_t, other, adt) in sp.switches:
+        # Result: 0 = Ok, 1 = Err ; ControlFlow (after Try::branch): 0 = Continue, 1 = Break
+        errs = set(one_t)
+        if not errs:
+            errs = {other}
+        for e in errs:
+            ok, why = err_arm_returns_err(fn, e)
+            out.append(("propagated" if ok else "matched-not-propagated", why, e))
+    for c in sp.consumers:
+        if c.name in PASS_THROUGH or c.name.endswith("::Try>::branch"):
+            out += disposition(fn, c, _seen, _depth + 1)
+        elif c.name in SWALLOW:
+            out.append(("swallowed", c.name, c.bb))
+        elif c.name in PANIC:
+            out.append(("panics", c.name, c.bb))
+        elif c.name.startswith("core::mem::drop") or c.name.startswith("core::mem::forget"):
+            out.append(("dropped", c.name, c.bb))
+        else:
+            out.append(("escapes", "passed to " + c.name, c.bb))
+    for k, b in sp.other:
+        out.append(("escapes", "used by a statement", b))
+    if not out:
+        out.append(("dropped", "result never inspected", call.bb))
+    return out
